@@ -404,7 +404,7 @@ func orchReplay(p *Property, path string) int {
 	scratch, _ := os.MkdirTemp(filepath.Join(verifRoot, ".build"), "replay-")
 	defer os.RemoveAll(scratch)
 	if strings.Contains(rf.Sig, "/crash/") || strings.Contains(rf.Sig, "/hang/") {
-		env := []string{"VERIF_ROLE=replay", "GOMAXPROCS=1", "GODEBUG=asyncpreemptoff=1", "VERIF_REPLAY=" + path, "VERIF_HANG_S=20"}
+		env := []string{"VERIF_ROLE=replay", "GOMAXPROCS=1", "GODEBUG=asyncpreemptoff=1", "VERIF_REPLAY=" + path, "VERIF_HANG_S=15"}
 		code, se := runChild(env, 1<<14)
 		if code != 0 && code != 4 {
 			fmt.Printf("dsim: replay died again (exit %d): %s\n", code, short(firstFatal(se), 300))
@@ -462,7 +462,7 @@ func triageDeadWorker(p *Property, tier string, r childResult, scratch string, w
 	path := filepath.Join(scratch, fmt.Sprintf("dead-%d.json", widx))
 	js, _ := json.Marshal(rf)
 	os.WriteFile(path, js, 0644)
-	env := []string{"VERIF_ROLE=replay", "GOMAXPROCS=1", "GODEBUG=asyncpreemptoff=1", "VERIF_REPLAY=" + path, "VERIF_HANG_S=30"}
+	env := []string{"VERIF_ROLE=replay", "GOMAXPROCS=1", "GODEBUG=asyncpreemptoff=1", "VERIF_REPLAY=" + path, "VERIF_HANG_S=15"}
 	code, se := runChild(env, 1<<15)
 	if code == 0 || code == 4 {
 		return nil, fmt.Sprintf("worker %d died (exit %d) in run %v but the run alone exits %d: %s", widx, r.exit, r.prog, code, short(r.stderr, 1500))
